@@ -37,7 +37,7 @@ const (
 	// stMalformed: a complete but malformed request (or a good announce followed by a malformed upgrade request), then
 	// silence; a peer's bad input may cost that peer its connection, never the other peers theirs
 	stMalformed = "malformed-request"
-	stSlow     = "slow-trickle"
+	stSlow      = "slow-trickle"
 )
 
 type caseDesc struct {
